@@ -99,9 +99,10 @@ func genUpdownAln(r *Rand, w, nq, nt int) (ref string, q, t Aln) {
 func init() {
 	register(&Prop{
 		ID: "C09", Level: "exploration", Quick: 48000, Thorough: 3000000,
-		Rule: "trial = (reference, 1..5 queries, 1..14 targets sharing SNPs and ambiguity tracts, topranking option set); `updown list` of queries and targets is simulated to obtain the CSV forms, then topranking runs in the four csv/fasta combinations under independent seeded schedules; non-trivial = at least 2 queries and at least one query has a non-empty bin; distinct = distinct (inputs, options)",
-		Gen:   genC09,
-		Check: checkC09,
+		Rule:          "trial = (reference, 1..5 queries, 1..14 targets sharing SNPs and ambiguity tracts, topranking option set); `updown list` of queries and targets is simulated to obtain the CSV forms, then topranking runs in the four csv/fasta combinations under independent seeded schedules; non-trivial = at least 2 queries and at least one query has a non-empty bin; distinct = distinct (inputs, options)",
+		ShrinkColumns: true,
+		Gen:           genC09,
+		Check:         checkC09,
 	})
 }
 
@@ -112,7 +113,7 @@ func genC09(r *Rand, tier string, ord int) *Trial {
 	c := Case{Cmd: "topranking", Files: map[string]string{"ref": ">ref\n" + ref + "\n", "query": q.FASTA(genLayout(r)), "target": tg.FASTA(genLayout(r))}}
 	c.Opts = genTROpts(r, tg.Names)
 	c.Opts.Threads = 1
-	t := &Trial{Kind: "topranking-4combos", Case: c, Params: map[string]string{"queries": strings.Join(q.Names, ",")}}
+	t := &Trial{Kind: "topranking-4combos", Case: c, Params: map[string]string{}}
 	t.Runs = genRunCfgs(r, 6)
 	if r.P(0.3) { // keep some trials entirely on the baseline policy: a failure there needs no schedule at all
 		for i := range t.Runs {
@@ -137,7 +138,12 @@ func checkC09(t *Trial, ctx *Ctx) *Failure {
 		}
 		csv[i] = string(res.Stdout)
 	}
-	names := strings.Split(t.Params["queries"], ",")
+	var names []string
+	if qq, _ := parseFasta(c.Files["query"]); true {
+		for _, rc := range qq {
+			names = append(names, strings.Fields(rc.head[1:])[0])
+		}
+	}
 	var outs [4]string
 	for k, cb := range combos {
 		cc := *c
@@ -170,7 +176,7 @@ func checkC09(t *Trial, ctx *Ctx) *Failure {
 			}
 			if !ok {
 				return &Failure{Class: fmt.Sprintf("C09/rows-not-one-per-query-in-order{%s}", tag),
-					Detail: fmt.Sprintf("%d queries (%s) but the output (%s) is:\n%s", len(names), t.Params["queries"], tag, outs[k])}
+					Detail: fmt.Sprintf("%d queries (%s) but the output (%s) is:\n%s", len(names), strings.Join(names, ","), tag, outs[k])}
 			}
 			if len(names) >= 2 && strings.Trim(strings.Join(rows, ""), "q0123456789,") != "" {
 				ctx.Nontrivial()
@@ -185,7 +191,7 @@ func checkC09(t *Trial, ctx *Ctx) *Failure {
 					}
 				}
 				if qi < last || qi < 0 {
-					return &Failure{Class: fmt.Sprintf("C09/table-groups-out-of-query-order{%s}", tag), Detail: fmt.Sprintf("queries %s; output (%s):\n%s", t.Params["queries"], tag, outs[k])}
+					return &Failure{Class: fmt.Sprintf("C09/table-groups-out-of-query-order{%s}", tag), Detail: fmt.Sprintf("queries %s; output (%s):\n%s", strings.Join(names, ","), tag, outs[k])}
 				}
 				last = qi
 			}
